@@ -14,7 +14,20 @@
    Bytes are abstract cells <<item, position, length>>: decoding a byte range succeeds iff the
    range is exactly one whole encoding of the wanted sort (CBOR rejects truncated input and
    trailing bytes; a receipt does not decode as a transaction).  Byte-level codec identity is not
-   modelled - the Go replayer exercises it (DESIGN.md section 8). *)
+   modelled - the Go replayer exercises it (DESIGN.md section 8).
+
+   The chain is NOT append-only: RevertHead removes the head block (header, number-by-hash,
+   blob, the tx-hash index entry of every transaction of the blob, the L1 message index entry of
+   every L1 handler, state update, height) and a DIFFERENT block may then be stored at that
+   height. The replacement has another block hash (block "version"), and its transaction list
+   may re-include transactions of reverted blocks - the same hashes at other indices or other
+   heights, a permutation, a subset, a superset - next to fresh ones. "What was stored" is what is
+   stored NOW: the answers for the block now at a height / the block now holding a hash; a dropped
+   transaction hash, a dropped L1 message and the hash of a replaced block are NOT FOUND.
+   Reads happen between any two writes. In the code as it is every accessor is a function of the
+   database, so a read changes nothing; MemoFamilies / MemoPurged model a reader-level memo (a
+   cache in the reader layer on top of the database, per lookup family) - a memo that is not
+   dropped by Store / RevertHead is the class of defect the Replace scenario exists for. *)
 EXTENDS Integers, Sequences, FiniteSets, TLC
 
 CONSTANTS MaxBlocks,      \* chain length bound
@@ -26,14 +39,26 @@ CONSTANTS MaxBlocks,      \* chain length bound
           (* design switches; TRUE = the code as it is, FALSE = a plausible slip, used as self-test *)
           LastItemRunsToEnd,        \* lazy slice: the last item ends at len(data)
           TxSectionEndsAtReceipts,  \* transactionsSection stops where receipts begin
-          HashIndexExact            \* the tx-hash index stores (number, index) of the transaction itself
+          HashIndexExact,           \* the tx-hash index stores (number, index) of the transaction itself
+          RevertDropsIndexes,       \* RevertHead deletes the tx-hash and L1-message index entries of the block
+          (* the chain is not append-only *)
+          MaxReverts,     \* RevertHead calls per behaviour (0 = append-only chain)
+          (* reader-level memos: {} = the code as it is (every accessor reads the database) *)
+          MemoFamilies,   \* subset of Families: lookups the reader layer remembers once answered
+          MemoPurged      \* TRUE = Store / RevertHead drop every memo; FALSE = a memo outlives the write
 
-VARIABLES chain,   \* ghost: what was handed to Store, per block [txs, rcs, su, l1]
+VARIABLES chain,   \* ghost: what was handed to Store and is stored NOW, per block [txs, rcs, su, l1, hdr, ver]
           db,      \* the database: [height, blobs, headers, byHash, txIndex, sus, l1]
+          dead,    \* ghost: [blocks: hashes of reverted blocks, txs: transactions of reverted blocks]
+          ver,     \* number of Store calls so far = version of the next block (ver - Len(chain) = reverts so far)
+          memo,    \* reader-level memos, per family a set of <<key, answer>> (always empty when MemoFamilies = {})
           act, res
 
-vars == <<chain, db, act, res>>
-view == <<chain, db>>
+vars == <<chain, db, dead, ver, memo, act, res>>
+view == <<chain, db, dead, ver, memo>>
+
+Families == {"loc", "num", "hdr", "blob", "su", "l1"}
+NoMemo == [f \in Families |-> {}]
 
 NotFound == [k |-> "notfound"]
 Error == [k |-> "error"]
@@ -41,12 +66,18 @@ Found(v) == [k |-> "found", v |-> v]
 
 --------------------------------------------------------------------------------
 (* items *)
-BlockHash(n) == <<"block", n>>
-TxHash(n, i) == <<"tx", n, i>>
-Tx(n, i, kind) == [sort |-> "tx", hash |-> TxHash(n, i), kind |-> kind]
-Rc(n, i, nev, rev) == [sort |-> "rc", hash |-> TxHash(n, i), events |-> [e \in 1..nev |-> <<"ev", n, i, e>>],
-                       rev |-> rev, reason |-> IF rev THEN <<"reason", n, i>> ELSE <<>>,
-                       rest |-> <<"fee-resources-messages", n, i>>]
+(* A block is identified by its VERSION v (the v-th Store call), not by its height: the block that
+   replaces a reverted one has another hash. A transaction is identified by where it was FIRST
+   included (version, index); re-included after a reorg it keeps its hash. A receipt belongs to one
+   inclusion: the same transaction re-included gets another receipt. *)
+BlockHash(v) == <<"block", v>>
+TxHash(v, i) == <<"tx", v, i>>
+Tx(v, i, kind) == [sort |-> "tx", hash |-> TxHash(v, i), kind |-> kind]
+Rc(h, v, nev, rev) == [sort |-> "rc", hash |-> h, events |-> [e \in 1..nev |-> <<"ev", h, v, e>>],
+                       rev |-> rev, reason |-> IF rev THEN <<"reason", h, v>> ELSE <<>>,
+                       rest |-> <<"fee-resources-messages", h, v>>]
+Msg(tx) == <<"msg", tx.hash[2], tx.hash[3]>>       \* the message hash is a function of the L1 handler
+Fresh == [sort |-> "fresh"]
 
 (* the three projections, as functions of the full item *)
 HashProj(tx) == tx.hash
@@ -98,9 +129,14 @@ Map(r, f(_)) == IF r.k # "found" THEN r ELSE Found([i \in 1..Len(r.v) |-> f(r.v[
 Map1(r, f(_)) == IF r.k # "found" THEN r ELSE Found(f(r.v))
 
 --------------------------------------------------------------------------------
-(* the read accessors, as functions of db *)
-Has(n) == n >= 0 /\ n <= db.height /\ n < Len(db.blobs)
-Blob(n) == db.blobs[n + 1]
+(* the read accessors, as functions of db (and of the reader-level memos, when there are any) *)
+MemoGet(fam, key, direct) ==
+  IF fam \in MemoFamilies /\ \E p \in memo[fam] : p[1] = key
+  THEN (CHOOSE p \in memo[fam] : p[1] = key)[2] ELSE direct
+
+BlobAt(n) == MemoGet("blob", n, IF n >= 0 /\ n <= db.height /\ n < Len(db.blobs) THEN Found(db.blobs[n + 1]) ELSE NotFound)
+Has(n) == BlobAt(n).k = "found"
+Blob(n) == BlobAt(n).v
 
 TxByIndex(n, i) == IF ~Has(n) THEN NotFound ELSE LazyGet("tx", Blob(n).idx.txs, TxSection(Blob(n)), i)
 RcByIndex(n, i) == IF ~Has(n) THEN NotFound ELSE LazyGet("rc", Blob(n).idx.rcs, RcSection(Blob(n)), i)
@@ -113,10 +149,10 @@ AllRcs(n) == IF ~Has(n) THEN NotFound ELSE All("rc", Blob(n).idx.rcs, RcSection(
 TxHashes(n) == Map(AllTxs(n), HashProj)                          \* transactionHashProjection
 TxEvents(n) == Map(AllRcs(n), EventsProj)                        \* receiptEventsProjection
 
-HeaderByNumber(n) == IF n >= 0 /\ n < Len(db.headers) /\ n <= db.height THEN Found(db.headers[n + 1]) ELSE NotFound
+HeaderByNumber(n) == MemoGet("hdr", n, IF n >= 0 /\ n < Len(db.headers) /\ n <= db.height THEN Found(db.headers[n + 1]) ELSE NotFound)
 TxCount(n) == Map1(HeaderByNumber(n), LAMBDA h : h.count)       \* headerTransactionCountProjection
-NumberByHash(h) == IF \E p \in db.byHash : p[1] = h
-                   THEN Found((CHOOSE p \in db.byHash : p[1] = h)[2]) ELSE NotFound
+NumberByHash(h) == MemoGet("num", h, IF \E p \in db.byHash : p[1] = h
+                                     THEN Found((CHOOSE p \in db.byHash : p[1] = h)[2]) ELSE NotFound)
 HeaderByHash(h) == LET r == NumberByHash(h) IN IF r.k # "found" THEN r ELSE HeaderByNumber(r.v)
 BlockByNumber(n) ==
   LET h == HeaderByNumber(n) t == AllTxs(n) r == AllRcs(n) IN
@@ -124,9 +160,10 @@ BlockByNumber(n) ==
   ELSE Found([header |-> h.v, txs |-> t.v, rcs |-> r.v])
 BlockByHash(h) == LET r == NumberByHash(h) IN IF r.k # "found" THEN r ELSE BlockByNumber(r.v)
 
-Locate(h) == IF \E e \in db.txIndex : e[1] = h
-             THEN Found(CHOOSE e \in db.txIndex : e[1] = h) ELSE NotFound
+Locate(h) == MemoGet("loc", h, IF \E e \in db.txIndex : e[1] = h
+                               THEN Found(CHOOSE e \in db.txIndex : e[1] = h) ELSE NotFound)
 TxByHash(h) == LET l == Locate(h) IN IF l.k # "found" THEN l ELSE TxByIndex(l.v[2], l.v[3])
+LocationByHash(h) == LET l == Locate(h) IN IF l.k # "found" THEN l ELSE Found(<<l.v[2], l.v[3]>>)
 ReceiptByHash(h) ==
   LET l == Locate(h) IN
   IF l.k # "found" THEN l
@@ -134,81 +171,152 @@ ReceiptByHash(h) ==
        IF r.k # "found" THEN r ELSE IF hd.k # "found" THEN hd
        ELSE Found([rc |-> r.v, blockHash |-> hd.v.hash, number |-> l.v[2]])
 
-SUByNumber(n) == IF n >= 0 /\ n < Len(db.sus) /\ n <= db.height THEN Found(db.sus[n + 1]) ELSE NotFound
+SUByNumber(n) == MemoGet("su", n, IF n >= 0 /\ n < Len(db.sus) /\ n <= db.height THEN Found(db.sus[n + 1]) ELSE NotFound)
 SUByHash(h) == LET r == NumberByHash(h) IN IF r.k # "found" THEN r ELSE SUByNumber(r.v)
-L1Lookup(m) == IF \E p \in db.l1 : p[1] = m THEN Found((CHOOSE p \in db.l1 : p[1] = m)[2]) ELSE NotFound
+L1Lookup(m) == MemoGet("l1", m, IF \E p \in db.l1 : p[1] = m THEN Found((CHOOSE p \in db.l1 : p[1] = m)[2]) ELSE NotFound)
+
+--------------------------------------------------------------------------------
+(* ghost bookkeeping *)
+Stored == 0..(Len(chain) - 1)
+Size(n) == Len(chain[n + 1].txs)
+Range(f) == {f[i] : i \in DOMAIN f}
+InChain == UNION {Range(chain[n + 1].txs) : n \in Stored}
+Orphans == {t \in dead.txs : \A u \in InChain : u.hash # t.hash}     \* reverted and not (re-)included now
+Reverts == ver - Len(chain)
 
 --------------------------------------------------------------------------------
 (* the write path: core.WriteBlockHeader, WriteTransactionsAndReceipts, WriteStateUpdateByBlockNum,
-   WriteL1HandlerMsgHashes, WriteChainHeight - one batch *)
+   WriteL1HandlerMsgHashes, WriteChainHeight - one batch. Every index write is a Put: it overwrites
+   whatever the key was bound to. src[i] = Fresh, or a transaction of a reverted block that is not
+   in the chain now (each at most once). *)
 Seqs(S, n) == [1..n -> S]
+Sources(size) == {s \in Seqs(Orphans \cup {Fresh}, size) :
+                    \A i, j \in 1..size : (i # j /\ s[i] # Fresh) => s[i] # s[j]}
+Purge == IF MemoPurged THEN NoMemo ELSE memo
 
-Store(size, kinds, evs, revs, tl, rl) ==
+Store(size, kinds, evs, revs, tl, rl, src) ==
   LET n == Len(chain)
-      txs == [i \in 1..size |-> Tx(n, i - 1, kinds[i])]
-      rcs == [i \in 1..size |-> Rc(n, i - 1, evs[i], revs[i])]
-      l1 == {<<<<"msg", n, i - 1>>, TxHash(n, i - 1)>> : i \in {j \in 1..size : kinds[j] = "l1handler"}}
-      hdr == [number |-> n, hash |-> BlockHash(n), count |-> size]
-      su == [blockHash |-> BlockHash(n), diff |-> <<"diff", n>>]
+      txs == [i \in 1..size |-> IF src[i] = Fresh THEN Tx(ver, i - 1, kinds[i]) ELSE src[i]]
+      rcs == [i \in 1..size |-> Rc(txs[i].hash, ver, evs[i], revs[i])]
+      l1 == {<<Msg(txs[i]), txs[i].hash>> : i \in {j \in 1..size : txs[j].kind = "l1handler"}}
+      hdr == [number |-> n, hash |-> BlockHash(ver), count |-> size]
+      su == [blockHash |-> BlockHash(ver), diff |-> <<"diff", ver>>]
+      hashes == {txs[i].hash : i \in 1..size}
   IN
   /\ n < MaxBlocks
-  /\ chain' = Append(chain, [txs |-> txs, rcs |-> rcs, su |-> su, l1 |-> l1, hdr |-> hdr])
+  /\ chain' = Append(chain, [txs |-> txs, rcs |-> rcs, su |-> su, l1 |-> l1, hdr |-> hdr, ver |-> ver])
   /\ db' = [height |-> n,
             blobs |-> Append(db.blobs, BuildBlob(txs, rcs, tl, rl)),
             headers |-> Append(db.headers, hdr),
-            byHash |-> db.byHash \cup {<<BlockHash(n), n>>},
-            txIndex |-> db.txIndex \cup {<<TxHash(n, i - 1), n, IF HashIndexExact THEN i - 1 ELSE i>> : i \in 1..size},
+            byHash |-> db.byHash \cup {<<BlockHash(ver), n>>},
+            txIndex |-> {e \in db.txIndex : e[1] \notin hashes}
+                        \cup {<<txs[i].hash, n, IF HashIndexExact THEN i - 1 ELSE i>> : i \in 1..size},
             sus |-> Append(db.sus, su),
-            l1 |-> db.l1 \cup l1]
-  /\ act' = [name |-> "Store", size |-> size, kinds |-> kinds, evs |-> evs, revs |-> revs]
+            l1 |-> {p \in db.l1 : \A q \in l1 : q[1] # p[1]} \cup l1]
+  /\ ver' = ver + 1
+  /\ memo' = Purge
+  /\ act' = [name |-> "Store", size |-> size, kinds |-> [i \in 1..size |-> txs[i].kind], evs |-> evs, revs |-> revs,
+             ver |-> ver, src |-> [i \in 1..size |-> IF src[i] = Fresh THEN <<"fresh">> ELSE src[i].hash]]
   /\ res' = [k |-> "ok"]
+  /\ UNCHANGED dead
+
+(* Blockchain.RevertHead -> deleteBlockContent + core.DeleteTransactionsAndReceipts: the hashes to
+   unindex are those of the transactions DECODED from the head's blob *)
+Revert ==
+  LET n == db.height
+      t == IF n >= 0 /\ n < Len(db.blobs)
+           THEN All("tx", db.blobs[n + 1].idx.txs, TxSection(db.blobs[n + 1])) ELSE NotFound
+      gone == IF t.k = "found" THEN Range(t.v) ELSE {}
+  IN
+  /\ Len(chain) > 0 /\ Reverts < MaxReverts
+  /\ t.k = "found"
+  /\ chain' = SubSeq(chain, 1, n)
+  /\ dead' = [blocks |-> dead.blocks \cup {db.headers[n + 1].hash}, txs |-> dead.txs \cup Range(chain[n + 1].txs)]
+  /\ db' = [height |-> n - 1,
+            blobs |-> SubSeq(db.blobs, 1, n),
+            headers |-> SubSeq(db.headers, 1, n),
+            byHash |-> {p \in db.byHash : p[1] # db.headers[n + 1].hash},
+            txIndex |-> IF RevertDropsIndexes THEN {e \in db.txIndex : \A u \in gone : u.hash # e[1]} ELSE db.txIndex,
+            sus |-> SubSeq(db.sus, 1, n),
+            l1 |-> IF RevertDropsIndexes
+                   THEN {p \in db.l1 : \A u \in gone : ~(u.kind = "l1handler" /\ Msg(u) = p[1])} ELSE db.l1]
+  /\ memo' = Purge
+  /\ act' = [name |-> "Revert", number |-> n]
+  /\ res' = [k |-> "ok"]
+  /\ UNCHANGED ver
+
+(* a read through the reader layer; with a memo for that family the answer is remembered *)
+Known(fam) ==
+  CASE fam = "loc" -> {t.hash : t \in InChain \cup dead.txs}
+    [] fam = "num" -> {chain[n + 1].hdr.hash : n \in Stored} \cup dead.blocks
+    [] fam = "l1" -> {Msg(t) : t \in {u \in InChain \cup dead.txs : u.kind = "l1handler"}}
+    [] OTHER -> 0..(MaxBlocks - 1)
+Answer(fam, key) ==
+  CASE fam = "loc" -> Locate(key) [] fam = "num" -> NumberByHash(key) [] fam = "hdr" -> HeaderByNumber(key)
+    [] fam = "blob" -> BlobAt(key) [] fam = "su" -> SUByNumber(key) [] fam = "l1" -> L1Lookup(key)
+Read(fam, key) ==
+  LET r == Answer(fam, key) IN
+  /\ memo' = IF fam \in MemoFamilies /\ r.k = "found" THEN [memo EXCEPT ![fam] = @ \cup {<<key, r>>}] ELSE memo
+  /\ act' = [name |-> "Read", fam |-> fam]
+  /\ res' = [k |-> r.k]
+  /\ UNCHANGED <<chain, db, dead, ver>>
 
 (* the node restarts (new objects over the same database; gracefully or not): everything an
-   accessor answers from is in the database, so every answer is what it was *)
+   accessor answers from is in the database, so every answer is what it was; whatever the reader
+   layer remembered is gone with the process *)
 Restart(graceful) ==
   /\ Len(chain) > 0
   /\ act' = [name |-> "Restart", graceful |-> graceful]
   /\ res' = [k |-> "ok"]
-  /\ UNCHANGED <<chain, db>>
+  /\ memo' = NoMemo
+  /\ UNCHANGED <<chain, db, dead, ver>>
+
+EmptyDB == [height |-> -1, blobs |-> <<>>, headers |-> <<>>, byHash |-> {}, txIndex |-> {}, sus |-> <<>>, l1 |-> {}]
 
 Init ==
   /\ chain = <<>>
-  /\ db = [height |-> -1, blobs |-> <<>>, headers |-> <<>>, byHash |-> {}, txIndex |-> {}, sus |-> <<>>, l1 |-> {}]
+  /\ db = EmptyDB
+  /\ dead = [blocks |-> {}, txs |-> {}]
+  /\ ver = 0
+  /\ memo = NoMemo
   /\ act = [name |-> "Init"] /\ res = [k |-> "none"]
 
 Next ==
-  \E size \in 0..MaxSize :
-    \E kinds \in Seqs(Kinds, size), evs \in Seqs(EvCounts, size), revs \in Seqs(Revs, size),
-       tl \in Seqs(Lens, size), rl \in Seqs(Lens, size) :
-      Store(size, kinds, evs, revs, tl, rl)
+  \/ \E size \in 0..MaxSize :
+       \E kinds \in Seqs(Kinds, size), evs \in Seqs(EvCounts, size), revs \in Seqs(Revs, size),
+          tl \in Seqs(Lens, size), rl \in Seqs(Lens, size), src \in Sources(size) :
+         Store(size, kinds, evs, revs, tl, rl, src)
+  \/ Revert
+  \/ \E fam \in MemoFamilies : \E key \in Known(fam) : Read(fam, key)
 
 NextR == Next \/ \E g \in BOOLEAN : Restart(g)
 
 Spec == Init /\ [][Next]_vars
 
 --------------------------------------------------------------------------------
-(* properties: for every stored block n, every index i (in range, and the first out of range),
-   every hash *)
-Stored == 0..(Len(chain) - 1)
-Size(n) == Len(chain[n + 1].txs)
+(* properties: for every block stored NOW, every index i (in range, and the first out of range),
+   every hash; in every reachable state, i.e. with reads between any two writes *)
+HashOf(n, i) == chain[n + 1].txs[i + 1].hash
+BHash(n) == chain[n + 1].hdr.hash
 
 ItemAccessors ==
   \A n \in Stored : \A i \in 0..(Size(n) - 1) :
     /\ TxByIndex(n, i) = Found(chain[n + 1].txs[i + 1])
     /\ RcByIndex(n, i) = Found(chain[n + 1].rcs[i + 1])
     /\ TxAndRcByIndex(n, i) = Found(<<chain[n + 1].txs[i + 1], chain[n + 1].rcs[i + 1]>>)
-    /\ TxByHash(TxHash(n, i)) = Found(chain[n + 1].txs[i + 1])
-    /\ ReceiptByHash(TxHash(n, i)) = Found([rc |-> chain[n + 1].rcs[i + 1], blockHash |-> BlockHash(n), number |-> n])
+    /\ TxByHash(HashOf(n, i)) = Found(chain[n + 1].txs[i + 1])
+    /\ LocationByHash(HashOf(n, i)) = Found(<<n, i>>)
+    /\ ReceiptByHash(HashOf(n, i)) = Found([rc |-> chain[n + 1].rcs[i + 1], blockHash |-> BHash(n), number |-> n])
 
 OutOfRange ==
   /\ \A n \in Stored : /\ TxByIndex(n, Size(n)) = NotFound /\ RcByIndex(n, Size(n)) = NotFound
                        /\ StatusByIndex(n, Size(n)) = NotFound /\ TxAndRcByIndex(n, Size(n)) = NotFound
                        /\ TxByIndex(n, -1) = NotFound
-                       /\ TxByHash(TxHash(n, Size(n))) = NotFound
+                       /\ TxByHash(TxHash(chain[n + 1].ver, MaxSize)) = NotFound
   /\ LET m == Len(chain) IN
      /\ TxByIndex(m, 0) = NotFound /\ AllTxs(m) = NotFound /\ AllRcs(m) = NotFound
      /\ HeaderByNumber(m) = NotFound /\ BlockByNumber(m) = NotFound /\ SUByNumber(m) = NotFound
-     /\ TxCount(m) = NotFound /\ HeaderByHash(BlockHash(m)) = NotFound /\ SUByHash(BlockHash(m)) = NotFound
+     /\ TxCount(m) = NotFound /\ HeaderByHash(BlockHash(ver)) = NotFound /\ SUByHash(BlockHash(ver)) = NotFound
 
 BlockAccessors ==
   \A n \in Stored :
@@ -216,22 +324,37 @@ BlockAccessors ==
     /\ AllRcs(n) = Found(chain[n + 1].rcs)
     /\ TxCount(n) = Found(Size(n))
     /\ HeaderByNumber(n) = Found(chain[n + 1].hdr)
-    /\ HeaderByHash(BlockHash(n)) = Found(chain[n + 1].hdr)
-    /\ NumberByHash(BlockHash(n)) = Found(n)
+    /\ HeaderByHash(BHash(n)) = Found(chain[n + 1].hdr)
+    /\ NumberByHash(BHash(n)) = Found(n)
     /\ BlockByNumber(n) = Found([header |-> chain[n + 1].hdr, txs |-> chain[n + 1].txs, rcs |-> chain[n + 1].rcs])
-    /\ BlockByHash(BlockHash(n)) = BlockByNumber(n)
+    /\ BlockByHash(BHash(n)) = BlockByNumber(n)
     /\ SUByNumber(n) = Found(chain[n + 1].su)
-    /\ SUByHash(BlockHash(n)) = SUByNumber(n)
+    /\ SUByHash(BHash(n)) = SUByNumber(n)
     /\ \A p \in chain[n + 1].l1 : L1Lookup(p[1]) = Found(p[2])
+
+(* not found exactly for what is not stored now: the hashes a reorg dropped *)
+Gone ==
+  /\ \A t \in Orphans : /\ TxByHash(t.hash) = NotFound /\ ReceiptByHash(t.hash) = NotFound
+                         /\ LocationByHash(t.hash) = NotFound
+                         /\ (t.kind = "l1handler" => L1Lookup(Msg(t)) = NotFound)
+  /\ \A h \in dead.blocks : /\ NumberByHash(h) = NotFound /\ HeaderByHash(h) = NotFound
+                             /\ BlockByHash(h) = NotFound /\ SUByHash(h) = NotFound
 
 (* the partial decoders agree with the full decoder on every record *)
 ProjectionsAgree ==
   \A n \in Stored :
-    /\ TxHashes(n) = Found([i \in 1..Size(n) |-> TxHash(n, i - 1)])
+    /\ TxHashes(n) = Found([i \in 1..Size(n) |-> HashOf(n, i - 1)])
     /\ TxEvents(n) = Found([i \in 1..Size(n) |-> EventsProj(chain[n + 1].rcs[i])])
     /\ \A i \in 0..(Size(n) - 1) : StatusByIndex(n, i) = Found(StatusProj(chain[n + 1].rcs[i + 1]))
 
-RestartIsNoOp == [][act'.name = "Restart" => UNCHANGED <<chain, db>>]_vars
+(* the database holds index entries for exactly what is stored now (Store;Revert leaves nothing) *)
+IndexesExact ==
+  /\ {e[1] : e \in db.txIndex} = {t.hash : t \in InChain}
+  /\ {p[1] : p \in db.byHash} = {BHash(n) : n \in Stored}
+  /\ {p[1] : p \in db.l1} = {Msg(t) : t \in {u \in InChain : u.kind = "l1handler"}}
+
+RestartIsNoOp == [][act'.name = "Restart" => UNCHANGED <<chain, db, dead, ver>>]_vars
+ReadIsNoOp == [][act'.name = "Read" => UNCHANGED <<chain, db, dead, ver>>]_vars
 
 (* layout facts the accessors rely on *)
 Layout ==
